@@ -161,12 +161,55 @@ def run_case(which, workroot):
         f = env.fields(r, 4)
         if f != [pconst(0), pconst(1), pconst(1), pconst(0)]:
             raise Mismatch("neutral element is not (0 : 1 : 1 : 0)")
+    elif which == "has_small_order":
+        # ge25519_has_small_order(P) on a point as ge25519_frombytes produces it (Z = 1, T = x y): the function tests four
+        # field elements for zero and ORs the answers.  (a) the four tested elements, as polynomials in the affine x, y:
+        # their product must be  x y (x^2 + y^2)  up to sign (with sqrtm1^2 = -1): on the curve, x = 0 <=> order 1 or 2,
+        # y = 0 <=> order 4, x^2 = -y^2 <=> order 8 -- i.e. x(4P) = 0 (doubling law: x(2P) ~ 2xy, y(2P) ~ x^2 + y^2);
+        # (b) the combination: for each of the 16 patterns of zero-test answers the function returns their OR.
+        x, y = pvar("x"), pvar("y")
+        want = pmul(pmul(x, y), padd(pmul(x, x), pmul(y, y)))
+        tested_ref = None
+        for pattern in range(16):
+            it = interp.Interp(mod, None)
+            env = Env(it)
+            N = lambda n: xname(it, n)
+            tested = []
+
+            def inv(it_, a, env=env):
+                if env.get(a[1]) != pconst(1):
+                    raise Mismatch("fe25519_invert of something other than Z = 1")
+                env.put(a[0], pconst(1))
+
+            def iszero(it_, a, env=env, tested=tested, pattern=pattern):
+                tested.append(env.get(a[0]))
+                return (pattern >> (len(tested) - 1)) & 1
+            it.stubs[N("fe25519_invert")] = inv
+            it.stubs[N("fe25519_iszero")] = iszero
+            pt = env.struct("p", [x, y, pconst(1), pmul(x, y)])
+            r = it.call(N("ge25519_has_small_order"), [pt])
+            if len(tested) != 4:
+                raise Mismatch("expected four zero tests, saw %d" % len(tested))
+            if (r & 0xffffffff) != (1 if pattern else 0):
+                raise Mismatch("zero-test answers %s give %r, not their OR" % (bin(pattern), r))
+            if tested_ref is None:
+                tested_ref = tested
+            elif tested != tested_ref:
+                raise Mismatch("the tested field elements depend on earlier answers")
+        prod = pconst(1)
+        for t in tested_ref:
+            prod = pmul(prod, t)
+        if padd(prod, want, -1) and padd(prod, want):
+            raise Mismatch("the four tested field elements are not x, y and the two factors of x^2 + y^2 (product %r ...)" % (sorted(prod.items())[:3],))
+        if not all(any(not padd(t, c, sg) for t in tested_ref for sg in (-1, 1)) for c in (x, y)):
+            raise Mismatch("x and y themselves are not among the tested field elements")
+        return dict(ir_steps=it.steps, tested=4)
     else:
         raise KeyError(which)
     return dict(ir_steps=it.steps)
 
 
-CASES = ["add_cached", "sub_cached", "add_precomp", "sub_precomp", "p2_dbl", "p3_dbl", "p1p1_to_p3", "p1p1_to_p2", "p3_to_cached", "p3_to_p2", "p3_0"]
+CASES = ["add_cached", "sub_cached", "add_precomp", "sub_precomp", "p2_dbl", "p3_dbl", "p1p1_to_p3", "p1p1_to_p2", "p3_to_cached", "p3_to_p2", "p3_0", "has_small_order"]
 
 
 def run(which, workroot):
